@@ -50,7 +50,7 @@ Candidates(v, c) ==
 Init == /\ stage = "grow" /\ pos = 1
         /\ hid = [c \in Coals |-> 0]
         /\ tab = InitTab /\ fresh = FALSE
-        /\ comp = "none" /\ rep = 0 /\ nchg = 0 /\ last = "init"
+        /\ comp = "none" /\ rep = 0 /\ nchg = 0 /\ last = [op |-> "init", c |-> 0]
 
 Grow == /\ stage = "grow" /\ pos <= Len(Order)
         /\ \E x \in Candidates(hid, Order[pos]) : hid' = [hid EXCEPT ![Order[pos]] = x]
@@ -60,27 +60,27 @@ Grow == /\ stage = "grow" /\ pos <= Len(Order)
 Start == /\ stage = "grow" /\ pos > Len(Order)
          /\ stage' = "play"
          /\ \E cp \in Computers : comp' = cp /\ (IF cp = "sam" THEN rep' \in Reps ELSE rep' = 0)
-         /\ tab' = FreshTab(Minimal, hid) /\ fresh' = FALSE /\ nchg' = 0 /\ last' = "start"
+         /\ tab' = FreshTab(Minimal, hid) /\ fresh' = FALSE /\ nchg' = 0 /\ last' = [op |-> "start", c |-> 0]
          /\ UNCHANGED <<pos, hid>>
 
 Reveal(c) == /\ stage = "play" /\ ~tab.k[c] /\ nchg < MaxChg
              /\ tab' = Tab([tab.k EXCEPT ![c] = TRUE], [tab.lo EXCEPT ![c] = hid[c]], [tab.up EXCEPT ![c] = hid[c]])
-             /\ fresh' = FALSE /\ nchg' = nchg + 1 /\ last' = "reveal"
+             /\ fresh' = FALSE /\ nchg' = nchg + 1 /\ last' = [op |-> "reveal", c |-> c]
              /\ UNCHANGED <<stage, pos, hid, comp, rep>>
 
 Unreveal(c) == /\ stage = "play" /\ tab.k[c] /\ c \notin Minimal /\ nchg < MaxChg
                /\ tab' = Tab([tab.k EXCEPT ![c] = FALSE], [tab.lo EXCEPT ![c] = 0], [tab.up EXCEPT ![c] = 0])
-               /\ fresh' = FALSE /\ nchg' = nchg + 1 /\ last' = "unreveal"
+               /\ fresh' = FALSE /\ nchg' = nchg + 1 /\ last' = [op |-> "unreveal", c |-> c]
                /\ UNCHANGED <<stage, pos, hid, comp, rep>>
 
 ResetTo(K) == /\ stage = "play" /\ AllowReset /\ nchg < MaxChg
               /\ tab' = FreshTab(Minimal \cup K, hid)
-              /\ fresh' = FALSE /\ nchg' = nchg + 1 /\ last' = "reset"
+              /\ fresh' = FALSE /\ nchg' = nchg + 1 /\ last' = [op |-> "reset", c |-> 0]
               /\ UNCHANGED <<stage, pos, hid, comp, rep>>
 
 ComputeAct == /\ stage = "play"
               /\ tab' = Compute(comp, rep, tab)
-              /\ fresh' = TRUE /\ nchg' = 0 /\ last' = "compute"
+              /\ fresh' = TRUE /\ nchg' = 0 /\ last' = [op |-> "compute", c |-> 0]
               /\ UNCHANGED <<stage, pos, hid, comp, rep>>
 
 Next == \/ Grow \/ Start \/ ComputeAct
